@@ -11,6 +11,7 @@ pub mod c08;
 pub mod c13;
 pub mod c16;
 pub mod c17;
+pub mod c17_ms;
 pub mod c18;
 pub mod c18_impls;
 pub mod c19;
@@ -47,7 +48,12 @@ pub fn run(ctx: &Ctx, out: &mut Out) -> bool {
         "C08" => c08::run(ctx, out),
         "C09" | "C10" | "C11" | "C12" => fp::run(ctx, out),
         "C13" => c13::run(ctx, out),
-        "C17" => c17::run(ctx, out),
+        "C17" => {
+            c17::run(ctx, out);
+            if ctx.replay.is_none() {
+                c17_ms::run(ctx, out);
+            }
+        }
         "C18" => c18::run(ctx, out),
         "C19" => c19::run(ctx, out),
         "C20" => c20::run(ctx, out),
